@@ -270,7 +270,43 @@ func (s *verifC13_state) step() {
 		before[x] = verifC13_changeID(x.real)
 		chBefore[x] = x.changes
 	}
-	switch rt.Choose(10) {
+	switch rt.Choose(11) {
+	case 10: // worker-facing: FilterChildren reports every visible leaf below the directory once
+		if d.deleted {
+			return
+		}
+		reported := map[*verifC13_leaf]int{}
+		n := 0
+		err := d.real.FilterChildren(func(node InitialChild, remove ChildRemover) bool {
+			_, leaf := node.GetPair()
+			if l, ok := leaf.(*verifC13_leaf); ok {
+				reported[l]++
+				n++
+			}
+			return true
+		})
+		rt.Assert(err == nil, "FilterChildren succeeds")
+		want := map[*verifC13_leaf]int{}
+		wn := 0
+		var collect func(m *verifC13_mnode, depth int)
+		collect = func(m *verifC13_mnode, depth int) {
+			for name, c := range m.children {
+				if c.isDir {
+					if depth < 4 {
+						collect(c, depth+1)
+					}
+				} else if !verifC13_hidden(name) {
+					want[c.leaf]++
+					wn++
+				}
+			}
+		}
+		collect(d, 0)
+		rt.Assert(n == wn, "FilterChildren reports exactly the leaves a listing shows (hidden ones are left out)")
+		for l, k := range want {
+			rt.Assert(reported[l] == k, "FilterChildren reports every visible leaf once per directory entry")
+		}
+		rt.Cover("op:filterchildren")
 	case 9: // worker-facing: CreateChildren with one new leaf
 		n, c := s.name()
 		overwrite := rt.NondetBool("overwrite existing entries")
@@ -596,7 +632,7 @@ func verifHarness_C13_Sequence() {
 	rt.Bound("operations", k)
 	rt.Bound("names", len(names))
 	rt.Bound("directories", 3)
-	rt.MustCover("op:mkdir", "op:create", "op:mknod", "op:link", "op:rename", "op:rename-replace", "op:remove", "op:removeall", "op:enter-replaces-leaf", "op:enter-deleted", "op:removeallchildren", "op:createchildren", "op:createchildren-exists", "readdir:resumed")
+	rt.MustCover("op:mkdir", "op:create", "op:mknod", "op:link", "op:rename", "op:rename-replace", "op:remove", "op:removeall", "op:enter-replaces-leaf", "op:enter-deleted", "op:removeallchildren", "op:createchildren", "op:createchildren-exists", "op:filterchildren", "readdir:resumed")
 	s := verifC13_newState(names)
 	for i := 0; i < k; i++ {
 		s.step()
